@@ -12,5 +12,7 @@ AliasEvents == { <<"PedBlindSum", 1>>,      \* 1: blind_out = buffer of the firs
                  <<"Ecdh", 1>>,             \* 1: output = secret-key buffer (32-byte outputs)
                  <<"EllswiftXdh", 1>>,      \* 1: output = secret-key buffer
                  <<"EcdsaSign", 3>>,        \* 1: message, 2: secret key, 3: extra nonce data stored inside the signature object
-                 <<"SchnorrSign", 2>> }     \* 1: auxiliary randomness at sig64, 2: message (<= 32 bytes) at sig64 + 32
+                 <<"SchnorrSign", 2>>,      \* 1: auxiliary randomness at sig64, 2: message (<= 32 bytes) at sig64 + 32
+                 <<"EcdsaNormalize", 1>>,   \* 1: sigout = sigin (normalised in place)
+                 <<"KTagged", 2>> }         \* 1: hash32 = start of the message buffer, 2: start of the tag buffer (when >= 32 bytes)
 =============================================================================
